@@ -7,10 +7,31 @@ import json
 import sys
 import warnings
 
+import os
 import numpy as np
 
-import pydl
-import pydl.pydlutils.bspline as B
+
+def _globals_snapshot():
+    return {'geterr': dict(np.geterr()), 'printoptions': {k: repr(v) for k, v in np.get_printoptions().items()},
+            'warnings.filters': len(warnings.filters), 'environ': hash(tuple(sorted(os.environ.items())))}
+
+
+# the third-party packages pydl builds on are imported first: what is measured is what importing pydl itself changes
+import scipy.linalg, scipy.special, scipy.interpolate, scipy.optimize                                        # noqa: E401,E402
+import astropy, astropy.io.fits, astropy.units, astropy.table, astropy.utils.data, astropy.wcs, astropy.time  # noqa: E401,E402
+try:
+    with warnings.catch_warnings():
+        warnings.simplefilter('ignore')
+        import astropy.tests.runner                                                                          # noqa: F401
+except Exception:  # noqa: BLE001
+    pass
+
+_G0 = _globals_snapshot()          # before pydl is imported (the import must not change process-global settings)
+
+import pydl                                                    # noqa: E402
+import pydl.pydlutils.bspline as B                             # noqa: E402
+
+_G1 = _globals_snapshot()
 
 
 def err(e, stage):
@@ -60,9 +81,9 @@ def same(a, b):
 def do_fit(c):
     k = int(c['nord'])
     dt = c.get('dtypes') or {}
-    xs = np.array(c['xs'], dtype='d').astype(dt.get('x', 'd'))
-    ys = np.array(c['ys'], dtype='d').astype(dt.get('y', 'd'))     # float32 / integer data (values exactly representable)
-    ws = np.array(c['ws'], dtype='d').astype(dt.get('w', 'd'))
+    xs = np.array([float(v) for v in c['xs']], dtype='d').astype(dt.get('x', 'd'))      # 'nan' / 'inf' / '-inf' strings allowed
+    ys = np.array([float(v) for v in c['ys']], dtype='d').astype(dt.get('y', 'd'))     # float32 / integer data (values exactly representable)
+    ws = np.array([float(v) for v in c['ws']], dtype='d').astype(dt.get('w', 'd'))
     try:
         with warnings.catch_warnings():
             warnings.simplefilter('ignore')
@@ -78,12 +99,16 @@ def do_fit(c):
         r.update(out)
         return r
     out['args_mutated'] = [nm for nm, a, b_ in (('xdata', xs, snap[0]), ('ydata', ys, snap[1]), ('invvar', ws, snap[2])) if not same(a, b_)]
-    out['status'] = int(status)
+    try:
+        out['status'] = int(status)
+    except Exception:  # noqa: BLE001
+        out['status'] = repr(status)[:60]
     out['status_type'] = type(status).__name__
     out['yfit'] = fl(yfit)
     out['coeff'] = fl(sset.coeff)
     out['mask_after'] = [bool(v) for v in sset.mask]
     out['finite'] = bool(np.all(np.isfinite(sset.coeff)) and np.all(np.isfinite(yfit)))
+    out['coeff_finite'] = bool(np.all(np.isfinite(np.asarray(sset.coeff, dtype='d'))))
     if 'alpha' in seen:
         out['alpha'] = [fl(row) for row in seen['alpha']]
         out['mininf'] = seen['mininf']
@@ -177,7 +202,10 @@ def main():
             res.append(do_chol(c))
         else:
             res.append({'err': 'BadCall', 'stage': 'harness'})
-    sys.stdout.write(json.dumps({'pydl_file': pydl.__file__, 'results': res}, allow_nan=False))
+    g2 = _globals_snapshot()
+    sys.stdout.write(json.dumps({'pydl_file': pydl.__file__, 'results': res,
+                                 'globals_changed': {'by_import': [k for k in _G0 if _G0[k] != _G1[k]],
+                                                     'by_calls': [k for k in _G1 if _G1[k] != g2[k]]}}, allow_nan=False))
 
 
 if __name__ == '__main__':
